@@ -208,7 +208,14 @@ def prop_check(kind, dur, readings, ops, stamp0=None):
     if kind == "timer":
         nxt()
     stamp = F(stamp0)
+    if outs[0][0] == "E" or not obs:
+        return "constructor raised %s (duration %r, store.stamp %r)" % (outs[0][1], dur, stamp0)
     prev = obs[0]
+    # constructor: starts at the clock (Timer) / at store.stamp, 0.0 when the stamp is None (StoreTimer)
+    want0 = abs(Fraction(readings[0]) if (kind == "timer" and readings) else
+                (Fraction(0) if kind == "timer" or stamp is None else stamp))
+    if (prev[0], prev[1]) != (want0, want0 + abs(Fraction(dur))):
+        return "constructor: start/stop %s/%s, expected %s/%s" % (prev[0], prev[1], want0, want0 + abs(Fraction(dur)))
     j = 0
     for i, op in enumerate(ops):
         st = obs[i + 1]
@@ -234,14 +241,30 @@ def prop_check(kind, dur, readings, ops, stamp0=None):
             if st[:2] != prev[:2]:
                 return "op %d: a query changed start/stop" % i
         elif op[0] == "repeat":
-            if st[0] != prev[1] and prev[1] >= 0:
-                return "op %d repeat started at %s, previous stop %s" % (i, st[0], prev[1])
+            # restarts exactly at the previous stop (also when that stop is 0.0), same duration
+            pdur = prev[1] - prev[0]
+            if prev[1] >= 0 and (st[0], st[1]) != (prev[1], prev[1] + pdur):
+                return "op %d repeat: start/stop %s/%s, previous stop %s duration %s (clock %s)" % (
+                    i, st[0], st[1], prev[1], pdur, stamp if kind == "store" else cur[0])
         elif op[0] == "extend":
-            if st[0] != prev[0] and prev[0] >= 0:
-                return "op %d extend moved start from %s to %s" % (i, prev[0], st[0])
+            # keeps the start (also a start of 0.0); duration becomes |duration + extension|
+            pdur = prev[1] - prev[0]
+            ndur = abs(pdur + (pdur if op[1] is None else Fraction(op[1])))
+            if prev[0] >= 0 and (st[0], st[1]) != (prev[0], prev[0] + ndur):
+                return "op %d extend: start/stop %s/%s, previous start %s new duration %s (clock %s)" % (
+                    i, st[0], st[1], prev[0], ndur, stamp if kind == "store" else cur[0])
         elif op[0] == "restart":
-            if op[1] is None and kind == "timer":
-                nxt()
+            # restart(start=x) starts at |x| (also x == 0.0); restart() starts at the clock / stamp
+            if op[1] is not None:
+                ws = abs(Fraction(op[1]))
+            elif kind == "timer":
+                ws = nxt()
+            else:
+                ws = stamp
+            wd = abs(Fraction(op[2])) if op[2] is not None else prev[1] - prev[0]
+            if ws is not None and (st[0], st[1]) != (ws, ws + wd):
+                return "op %d %r: start/stop %s/%s, expected %s/%s (clock %s)" % (
+                    i, op, st[0], st[1], ws, ws + wd, stamp if kind == "store" else cur[0])
         prev = st
     return None
 
@@ -407,6 +430,13 @@ def histories(ctx):
                     if n == 2 and not ctx.thorough and ctx.rng.random() > 0.25:
                         continue
                     yield ("store", 2.0, [], h, s0, "small")   # stamps 0,2,3,5 hit start + 2 exactly
+    # zeros: start / stop / explicit start exactly 0.0 while the stamp has moved on (and Timer with clock 0)
+    for d0 in (0.0, 2.0):
+        for o in ALPHA + [("restart", 0.0, None), ("restart", 0.0, 1.0)]:
+            for s0 in (0.0, None):
+                yield ("store", d0, [], [("stamp", 5.0), o, ("elapsed",), ("remaining",)], s0, "zero")
+                yield ("store", d0, [], [("stamp", 0.0), o, ("stamp", 3.0), ("repeat",), ("extend", None)], s0, "zero")
+            yield ("timer", d0, [0.0, 5.0, 6.0], [o, ("elapsed",), ("repeat",)], None, "zero")
     # stamp None paths: queries and restarts with explicit start
     for o in ALPHA:
         yield ("store", 1.0, [], [o], None, "none-stamp")
